@@ -4,7 +4,8 @@ Applies each patch to /repo's working tree (must be clean), runs the checks, rev
 import json, os, re, shutil, subprocess, sys
 
 VERIF = os.path.dirname(os.path.dirname(os.path.abspath(__file__)))
-SRC = "/tmp/seed-out"
+SRC = os.environ.get("SEED_SRC", "/tmp/seed-out")
+OFFSET = int(os.environ.get("SEED_ID_OFFSET", "0"))
 only = sys.argv[1:]
 
 
@@ -47,7 +48,7 @@ for pid in sorted(os.listdir(SRC)):
         m = re.fullmatch(r"change(\d)", ch)
         if not m:
             continue
-        sid = "%s-%s" % (pid, m.group(1))
+        sid = "%s-%d" % (pid, int(m.group(1)) + OFFSET)
         if only and sid not in only and pid not in only:
             continue
         d = os.path.join(SRC, pid, ch)
@@ -87,7 +88,7 @@ for pid in sorted(os.listdir(SRC)):
                 "at_repo_commit": re.search(r"== confirm .* at (\w+)", txt).group(1) if re.search(r"== confirm .* at (\w+)", txt) else head,
                 "demo": {"test": test_name.group(1) if test_name else None, "package": test_name.group(2) if test_name else None, "passes_on_clean_tree": True, "fails_with_patch": True},
                 "existing_suite_with_patch": {"run": int(suite.group(1)), "passed": int(suite.group(2)), "failed": int(suite.group(3)), "failed_tests": fails},
-                "commands": ["tools/confirm_seed.sh %s %s  (demo on clean tree; git apply; demo; cargo nextest run --workspace --no-fail-fast --offline)" % (pid, m.group(1))],
+                "commands": ["tools/confirm_seed.sh %s %s  (round %d; demo on clean tree; git apply; demo; cargo nextest run --workspace --no-fail-fast --offline)" % (pid, m.group(1), 2 if OFFSET else 1)],
             },
             "detected_by": det,
             "detected": bool(det),
